@@ -71,6 +71,9 @@ pub struct Scenario {
     pub only: Vec<String>,
     #[serde(default)]
     pub real: Option<RealSpec>,
+    /// bit mask selecting the alias routes (routes::ALIAS_ROUTES) run in this scenario
+    #[serde(default)]
+    pub alias: u32,
 }
 
 impl Scenario {
@@ -89,6 +92,7 @@ impl Scenario {
             perms: Vec::new(),
             only: Vec::new(),
             real: None,
+            alias: 0,
         }
     }
     pub fn wants(&self, name: &str) -> bool {
